@@ -29,6 +29,8 @@ def main(argv):
         ctx = Ctx(prop, tier, model)
         mod = importlib.import_module('sa.rules_%s' % prop.lower())
         mod.run(ctx, tier)
+        if tier == 'thorough' and not os.environ.get('VERIF_NO_SELFTEST'):
+            run_selftest(ctx, prop)
         return ctx.finish()
     except AnalysisError as ex:
         print('ANALYSIS-ERROR property=%s %s' % (prop, ex))
@@ -37,6 +39,27 @@ def main(argv):
         traceback.print_exc()
         print('ANALYSIS-ERROR property=%s internal error: %s' % (prop, ex))
         return 2
+
+
+def run_selftest(ctx, prop):
+    """thorough tier: apply the seeded variants / neutral refactors of this property to scratch copies and record how
+    many the quick check reports.  The numbers describe the checker; they never change this check's verdict."""
+    import json
+    import subprocess
+    import tempfile
+    here = os.path.dirname(os.path.abspath(__file__))
+    out = tempfile.mktemp(prefix='verif-selftest-', suffix='.json')
+    env = dict(os.environ, VERIF_SELFTEST_OUT=out, VERIF_NO_SELFTEST='1')
+    env.pop('VERIF_TIER', None)
+    try:
+        subprocess.run([sys.executable, os.path.join(here, 'selftest.py'), prop, '--jobs', '8'], env=env,
+                       capture_output=True, text=True, timeout=3000)
+        ctx.extra['selftest'] = json.load(open(out))
+    except Exception as ex:  # noqa
+        ctx.extra['selftest'] = {'error': str(ex)}
+    finally:
+        if os.path.exists(out):
+            os.remove(out)
 
 
 if __name__ == '__main__':
